@@ -57,6 +57,7 @@ type clRec struct {
 	Pops       int          `json:"pops"`
 	Left       int          `json:"left"`
 	Closes     int          `json:"closes"`
+	RType      int          `json:"rtype"`
 	ErrText    string       `json:"errtext,omitempty"`
 }
 
@@ -296,6 +297,15 @@ func runClientScript(sc *clScript) ([]clRec, bool) {
 				err = c.SetBacklogLimit(v, wm)
 			case "SetBacklogWaitTime":
 				err = c.SetBacklogWaitTime(int32(v), wm)
+			case "GetStatusAsync":
+				_, err = c.GetStatusAsync(v != 0)
+			case "Receive":
+				var raw *libaudit.RawAuditMessage
+				raw, err = c.Receive(true)
+				if err == nil && raw != nil {
+					r.RType = int(raw.Type)
+					r.Data = [][]int{bytesOf(raw.Data)}
+				}
 			case "WaitForPendingACKs":
 				err = c.WaitForPendingACKs()
 			case "Close":
@@ -344,7 +354,7 @@ func sameClientRecs(pred, real []clRec) bool {
 	}
 	for i := range pred {
 		p, q := pred[i], real[i]
-		if p.Name != q.Name || p.Ret != q.Ret || p.Pops != q.Pops || p.Left != q.Left || p.Closes != q.Closes ||
+		if p.Name != q.Name || p.Ret != q.Ret || p.Pops != q.Pops || p.Left != q.Left || p.Closes != q.Closes || p.RType != q.RType ||
 			p.LeftBefore != q.LeftBefore || len(p.Sent) != len(q.Sent) {
 			return false
 		}
